@@ -166,6 +166,14 @@ fn ip_slice_res(c: &Ctx, s: &IpSlice) -> Res {
     }
     // conversion named in C02: must not panic on an accepted slice
     touch(&s.to_header());
+    // convenience accessors of the IP boundary value and of its header view
+    let oct = |a: std::net::IpAddr| -> Vec<i64> { match a { std::net::IpAddr::V4(x) => x.octets().iter().map(|v| *v as i64).collect(), std::net::IpAddr::V6(x) => x.octets().iter().map(|v| *v as i64).collect() } };
+    let h = s.header();
+    let hv: Vec<i64> = vec![h.version() as i64, h.header_len() as i64, h.payload_ip_number().0 as i64, h.next_header().0 as i64, b2i(h.is_ipv4()), b2i(h.is_ipv6())];
+    let hslice: Vec<i64> = { let (o, l) = c.rg(h.slice()); vec![o, l] };
+    r.conv = json!({"has": 4, "vlan_ids": [], "vlan": [], "epay": no_pay(), "ipay": ip_pay(c, s.payload()), "pet": -2, "frag": b2i(s.is_fragmenting_payload()), "mism": [],
+                    "pin": s.payload_ip_number().0, "src": oct(s.source_addr()), "dst": oct(s.destination_addr()),
+                    "hv": hv, "hsrc": oct(h.source_addr()), "hdst": oct(h.destination_addr()), "hslice": hslice});
     r
 }
 fn lax_ip_slice_res(c: &Ctx, s: &LaxIpSlice) -> Res {
@@ -174,6 +182,9 @@ fn lax_ip_slice_res(c: &Ctx, s: &LaxIpSlice) -> Res {
         LaxIpSlice::Ipv4(i) => ipv4_layers(c, &mut r, &i.header(), &i.extensions(), lax_ip_pay(c, i.payload())),
         LaxIpSlice::Ipv6(i) => ipv6_layers(c, &mut r, &i.header(), i.extensions(), lax_ip_pay(c, i.payload())),
     }
+    let oct = |a: std::net::IpAddr| -> Vec<i64> { match a { std::net::IpAddr::V4(x) => x.octets().iter().map(|v| *v as i64).collect(), std::net::IpAddr::V6(x) => x.octets().iter().map(|v| *v as i64).collect() } };
+    r.conv = json!({"has": 5, "vlan_ids": [], "vlan": [], "epay": no_pay(), "ipay": lax_ip_pay(c, s.payload()), "pet": -2, "frag": b2i(s.is_fragmenting_payload()), "mism": [],
+                    "pin": s.payload_ip_number().0, "src": oct(s.source_addr()), "dst": oct(s.destination_addr())});
     r
 }
 fn a_ipslice(c: &Ctx, b: &[u8], _: u16) -> Res {
